@@ -1083,7 +1083,12 @@ class _Hang(BaseException):
 HANG_CALL = 2.0     # s of CPU per call (normal calls: 1-20 ms)
 HANG_AFTER = 0.25   # per call after the first hang of the case
 HANG_TOTAL = 3.0    # CPU spent in hanging calls per case before the rest is skipped
-_G = types.SimpleNamespace(armed=False, hangs=0, spent=0.0, skipped=0)
+# A tree on which hundreds of cases spin must still get its verdict within the quick budget: once this process (or the
+# process it was forked from: the runner evaluates shrink candidates in fresh workers) has seen SICK_AFTER cases hang,
+# the limits drop to HANG_CALL_SICK per call and one hanging call per case.  `--replay` always runs with the full limits.
+SICK_AFTER = 3
+HANG_CALL_SICK = 0.3
+_G = types.SimpleNamespace(armed=False, hangs=0, spent=0.0, skipped=0, sick=0)
 
 
 def _on_vtalrm(signum, frame):
@@ -1100,10 +1105,11 @@ def guard_reset():
 
 def guarded(fn, *args, _scale=1.0, _always=False, **kw):
     """fn(*args) under the CPU limit; raises _Hang when it did not return."""
-    if _G.spent >= HANG_TOTAL and not _always:
+    sick = _G.sick >= SICK_AFTER
+    if _G.spent >= (HANG_CALL_SICK if sick else HANG_TOTAL) and not _always:
         _G.skipped += 1
         raise _Hang()
-    limit = (HANG_CALL if _G.hangs == 0 else HANG_AFTER) * _scale
+    limit = ((HANG_CALL_SICK if sick else HANG_CALL) if _G.hangs == 0 else HANG_AFTER) * _scale
     old = signal.signal(signal.SIGVTALRM, _on_vtalrm)
     _G.armed = True
     signal.setitimer(signal.ITIMER_VIRTUAL, limit, 0.2)   # repeats: a handler inside the code under test may swallow one
@@ -1647,7 +1653,8 @@ def run_impl(case):
         _G.armed = False
         signal.setitimer(signal.ITIMER_VIRTUAL, 0)
     if _G.hangs or _G.skipped:
-        obs["hangs"] = {"calls": _G.hangs, "skipped": _G.skipped}
+        obs["hangs"] = {"calls": _G.hangs, "skipped": _G.skipped, "limit": HANG_CALL_SICK if _G.sick >= SICK_AFTER else HANG_CALL}
+        _G.sick += 1
     return obs
 
 
@@ -1975,8 +1982,9 @@ def oracle(case, obs):
             if got["exc"] == "hang":
                 # the reference ran the structured program up to its next statement, so the program terminates from
                 # here: an interpreter that follows it statement by statement terminates as well
-                return (f"FOLLOW: prefix {k}: compute_next_steps did not return (CPU limit of {HANG_CALL} s; the call takes milliseconds), "
-                        f"but the structured program terminates here: the flow's next statement gives {e}")
+                _G.sick += 1   # (main process: inherited by the workers that evaluate the shrink candidates)
+                return (f"FOLLOW: prefix {k}: compute_next_steps did not terminate (no return within {(obs.get('hangs') or {}).get('limit', HANG_CALL)} s of CPU time; "
+                        f"the call takes milliseconds) on a terminating structured program: the flow's next statement gives {e}")
             return f"FOLLOW: prefix {k}: compute_next_steps raised {got['exc']}, expected {e}"
         if got["ok"] != e:
             return ("ZOMBIE" if (flags[k] or obs["zombie"][k]) else "FOLLOW") + f": prefix {k}: decided {got['ok']}, the flow's next statement gives {e}"
